@@ -287,6 +287,8 @@ def naming(w, letters, style):
         return tuple(l * 2 for l in letters)
     if style == "objects":
         return tuple(w.dim(l) for l in letters)
+    if style == "equal-objects":        # Dimension objects that are equal to the array's own, but not the same objects (a re-created
+        return tuple(w.dim(l, fresh=True) for l in letters)       # dimension, a deep copy, the dims of a slice)
     if style == "mixed":
         return tuple(l if i % 2 == 0 else l * 2 for i, l in enumerate(letters))
     raise AnalysisError(style)
@@ -430,13 +432,17 @@ def reduce_cases(prog, alpha, lists=None, taint_mode="abort"):
         subs = [S for S in L if all(l in A for l in S)]
         for S in subs:
             for method in ("sum_to", "sum_values_to"):
-                for style in (("letters", "names", "objects", "mixed") if method == "sum_to" else ("letters",)):
+                for style in (("letters", "names", "objects", "equal-objects", "mixed") if method == "sum_to" else ("letters",)):
                     if style == "mixed" and len(S) < 2:
+                        continue
+                    if style == "equal-objects" and (not S or len(A) > 2):
                         continue
                     yield lambda m=method, A=A, S=S, st=style: case_sum(prog, m, A, S, st, taint_mode)
             if tuple(sorted(S)) == S or len(S) <= 2:
                 for method in ("sum_over", "sum_values_over"):
-                    for style in (("letters", "names", "objects") if method == "sum_over" else ("letters",)):
+                    for style in (("letters", "names", "objects", "equal-objects") if method == "sum_over" else ("letters",)):
+                        if style == "equal-objects" and (not S or len(A) > 2):
+                            continue
                         yield lambda m=method, A=A, S=S, st=style: case_sum(prog, m, A, S, st, taint_mode)
                 yield lambda A=A, S=S: case_shares(prog, A, S, taint_mode)
                 if len(A) <= 2:
